@@ -152,9 +152,10 @@ impl U64Segment {
 
     fn sorted_sequence_sizes(stats: &SegmentStats) -> [usize; 3] {
         let n_holes = stats.n_holes();
-        let total_slots = stats.max - stats.min + 1;
+        let total_slots = (stats.max - stats.min).saturating_add(1);
 
-        let range_with_holes = 24 + 4 * n_holes as usize;
+        // Sparse sequences can have close to u64::MAX holes
+        let range_with_holes = 24_usize.saturating_add(4_usize.saturating_mul(n_holes as usize));
         let range_with_bitmap = 24 + (total_slots as f64 / 8.0).ceil() as usize;
         let sorted_array = 24 + 2 * stats.count as usize;
 
